@@ -242,6 +242,10 @@ func (b *builder) buildFromEvent(ev *Event, depth int) *ProofNode {
 	ruleID := b.ruleID(ev.Rule)
 	switch ev.Kind {
 	case EventRule:
+		if len(ev.Rule.Premises) == 0 {
+			// A base fact written in the program: a leaf.
+			return &ProofNode{ID: edbProofID(ev.Output), Fact: ev.Output, Kind: KindEDB}
+		}
 		return b.buildRule(ev, ruleID, depth)
 	case EventLet:
 		return b.buildLet(ev, ruleID, depth)
